@@ -8,6 +8,14 @@ Streams (all randomness from the seed):
               the wire-id specification `canon` up to an injective register naming
   simulator   harness simulator == pytket get_unitary / get_statevector on measurement-free circuits
   mua         from_tk.make_units_adjacent on every single two-qubit gate (exhaustive, small widths) == model
+  fromtk      functional correspondence of the import: real `Circuit.from_tk(t)` (domain, codomain, boxes,
+              offsets, error class) == model `fromTk`, on (a) every export of the generated circuits,
+              (b) random tket circuits built directly with pytket calls (plain, and discopy tk.Circuit
+              with post-selected bits), (c) malformed inputs (unsupported ops, three-qubit gates, a
+              post-processing that does not fit, post-selection keys that are no bits)
+  roundtrip   the statement `FromToRoundTrip` of lean/Props/C13.lean (not proved) evaluated on the model
+              for every export inside the fragment: canon(from_tk(to_tk(c))) is canon(c) up to an
+              injective naming, with the post-selected measurements moved to the end
   oracle      (the property) exported circuit simulated exactly + post-selection + scalar +
               post-processing == the circuit's mixed evaluation; eval(backend) / get_counts(backend)
               with an exact-frequency backend == local evaluation; from_tk(to_tk(c)) evaluates to
@@ -108,6 +116,9 @@ def from_tk_sig(tk_circ, exc=None, label="-"):
         if "SWAP" in names:
             return "from_tk:swap_not_importable"                # SWAP.name is 'Swap(qubit, qubit)'
         return "from_tk:raises:notimpl"
+    if exc is None and T.gate_after_postselected_measure(cmds, ps):
+        # tk.py:320-322, 336-339: the post-selection is moved to the end of the circuit (F33)
+        return "from_tk:gate_after_postselected_measure"
     measured = [c[3][0] for c in cmds if c[0] == "Measure" and c[3][0] not in ps]
     if any(any(p < b for p in ps) for b in measured):
         # tk.py:313-323 indexes the bits with the raw tket index although n_bits (tk.py:273)
@@ -126,7 +137,9 @@ def run(tier, seed, replay=None):
     rep.rule = ("random circuits over {Ket, Bra, Bits(0), H, S, T, X, Y, Z, CX, CZ, Controlled(X|Y|Z|H|S), "
                 "SWAP, Swap(bit,bit), mixed swaps, Rx, Rz, CRz, Measure (destructive / not / override_bits), "
                 "Discard (qubits and bits), scalars (pure and mixed), classical gates (0/1 matrices of "
-                "arities 0-2 -> 1-2) and Bits effects}, 0-4 wires at every depth, 1-8 layers, preparations / "
+                "arities 0-2 -> 1-2) and Bits effects}, 0-4 wires at every depth, 1-8 layers (8% start with three "
+                "prepared qubits, one Measure(n >= 2) box and a bit swap / overriding Measure that tells its bits "
+                "apart), preparations / "
                 "post-selections / swaps at arbitrary depths, ~6% boxes outside the exportable set; "
                 "non-trivial = export succeeds with at least one preparation or measurement not at the "
                 "right end of its register list, or a swap, or a non-empty post-processing; plus random "
@@ -136,13 +149,22 @@ def run(tier, seed, replay=None):
         "non-post-selected register, no Discard of bits, no override_bits Measure after classical "
         "post-processing); each excluded shape has a decided counter-witness and is a known finding on "
         "/repo (F23, F24, F25, F27)",
-        "meaning of tket ops, pytket's rename_units/add_blank_wires, from_tk and the backend path are "
-        "outside the model: they rest on the oracle of this check",
+        "from_tk is modelled one-for-one and proved, for every well-formed tket circuit, to be defined, "
+        "well-typed and to place every gate on the units tket names (wire-identity trace; measured bits at "
+        "the rank of the bit among the non-post-selected ones; make_units_adjacent for every width); the "
+        "round-trip statement FromToRoundTrip is stated in Lean but NOT proved (it is evaluated on the model "
+        "for every generated export inside the fragment, stream `roundtrip`); moving a post-selected "
+        "measurement to the end is harmless only under `psFinal` (finding F33 otherwise)",
+        "meaning of tket ops and of the imported boxes, pytket's rename_units/add_blank_wires/get_commands "
+        "order, Circuit.upgrade and the backend path are outside the model: they rest on the oracle of this "
+        "check",
     ]
     rep.assumptions = [
         "pytket's get_unitary/get_statevector define the meaning of tket ops (the harness simulator is "
         "compared with them on every run)",
         "hasattr(tk_circ, name) is abstracted by the table `tkHas` (validated for the generated names)",
+        "tket parameters are multiples of 1/8 (the model's angle lattice; the generators produce nothing else), "
+        "units live in the default registers q / c",
     ]
     rep.lean = lean_obligations(PROP, thorough=(tier == "thorough"))
     quick = tier == "quick"
@@ -158,7 +180,10 @@ def run(tier, seed, replay=None):
         simulator_stream(rep, rng, n_tk)
         adjacent_stream(rep, drv, 5 if quick else 6, Circuit)
         export_stream(rep, rng, drv, budget, Circuit)
-        import_stream(rep, rng, n_tk, Circuit, budget["max_units"])
+        import_stream(rep, rng, drv, n_tk, Circuit, budget["max_units"])
+        import_ps_stream(rep, rng, drv, 120 if quick else 1500, 24 if quick else 400, Circuit,
+                         4 if quick else budget["max_units"])
+        malformed_stream(rep, rng, drv, 30 if quick else 300, Circuit)
     finally:
         drv.close()
     return rep.finish()
@@ -274,6 +299,16 @@ WITNESSES = [
     ("", [(("ket", (0, 1)), 0), (("discard", "q"), 0), (("ket", (0,)), 1), (("measure", 2, 1, 0), 0)]),
     ("", [(("ket", (1, 1, 0)), 0), (("bra", (1,)), 0), (("ket", (0,)), 2), (("gate", "CX"), 0),
           (("measure", 3, 1, 0), 0)]),
+    # one Measure(n) box, then a consumer of the order of its n bit registers (seeded C13-r2m1):
+    # H @ Rx(5/16) @ X >> CX @ Id(1) >> Measure(3) >> Swap(bit, bit) @ Id(bit)
+    ("qqq", [(("gate", "H"), 0), (("rot", "Rx", 5), 1), (("gate", "X"), 2), (("gate", "CX"), 0),
+             (("measure", 3, 1, 0), 0), (("swap", "b", "b"), 0)]),
+    # Ket(1, 0, 0) >> Measure(3) >> Id(bit) @ Swap(bit, bit)
+    ("", [(("ket", (1, 0, 0)), 0), (("measure", 3, 1, 0), 0), (("swap", "b", "b"), 1)]),
+    # Ket(1, 0, 1) >> Measure(2) @ Id(1) >> Id(bit) @ Swap(bit, qubit) >> Id(bit) @ Measure(1, override_bits=True)
+    ("", [(("ket", (1, 0, 1)), 0), (("measure", 2, 1, 0), 0), (("swap", "b", "q"), 1), (("measure", 1, 1, 1), 1)]),
+    # Ket(0, 1, 1) >> Id(1) @ Measure(2) >> Measure() @ Id(bit @ bit) >> Swap(bit, bit) @ Id(bit)
+    ("", [(("ket", (0, 1, 1)), 0), (("measure", 2, 1, 0), 1), (("measure", 1, 1, 0), 0), (("swap", "b", "b"), 0)]),
     # two post-selected bits with adjacent tket indices
     ("", [(("ket", (1, 0, 1)), 0), (("bra", (1, 0)), 0), (("measure", 1, 1, 0), 0)]),
     ("", [(("ket", (1, 0, 1)), 0), (("bra", (1, 0)), 1), (("gate", "H"), 0), (("measure", 1, 1, 0), 0)]),
@@ -289,6 +324,15 @@ def export_stream(rep, rng, drv, budget, Circuit):
     toks = [T.spec_tokens(s) for s in specs]
     answers = drv.ask_many(["totk " + t for t in toks])
     spec_answers = drv.ask_many(["tkspec " + t for t in toks])
+    exports, rounds = [], []
+    try:
+        _export_loop(rep, budget, Circuit, n_w, specs, toks, answers, spec_answers, exports, rounds)
+    finally:
+        fromtk_compare(rep, drv, exports, Circuit, "export")
+        roundtrip_compare(rep, drv, rounds)
+
+
+def _export_loop(rep, budget, Circuit, n_w, specs, toks, answers, spec_answers, exports, rounds):
     for idx, (spec, tok, ans, sans) in enumerate(zip(specs, toks, answers, spec_answers)):
         case = dict(spec=repr(spec))
         c = T.build(spec)
@@ -322,6 +366,7 @@ def export_stream(rep, rng, drv, budget, Circuit):
             else:
                 rep.fail("to_tk:raises:" + cls, case, "to_tk raises on a circuit of the exportable set")
             continue
+        exports.append((case, t))
         if exotic(spec):
             rep.count("exotic_exported")    # e.g. S.dagger() exported under the name S: outside the set
             continue
@@ -335,6 +380,7 @@ def export_stream(rep, rng, drv, budget, Circuit):
                 if why:
                     rep.disagree("refines", case, "export refines canon", why)
                 rep.count("refines_checked")
+                rounds.append((case, "%d %s" % (1 if t.scalar != 1 else 0, tok)))
         # ---- the property: meaning of the export
         if idx >= budget["oracle"]:
             continue
@@ -358,7 +404,7 @@ def export_stream(rep, rng, drv, budget, Circuit):
         # ---- import of the export: must mean what the export means
         if idx >= budget["roundtrip"]:
             continue
-        if t.n_qubits + len(t.bits) > (8 if idx < n_w else budget["max_units"]):
+        if t.n_qubits + len(t.bits) > (7 if idx < n_w else budget["max_units"]):   # 8 units: 6 s a piece
             rep.count("roundtrip_skipped_large")     # from_tk keeps every unit as a wire: 4^q * 2^b entries
             continue
         try:
@@ -414,12 +460,137 @@ def backend_checks(rep, c, t, ref, e2e_ok, label, case):
 
 # --------------------------------------------------------------------------- import of tket circuits
 
-def import_stream(rep, rng, n, Circuit, max_units):
+def fromtk_compare(rep, drv, items, Circuit, origin):
+    """Real `Circuit.from_tk(t)` against the model for a batch of discopy tk.Circuits: domain,
+    codomain, boxes, offsets, or the class of the exception."""
+    toks, kept = [], []
+    for case, t in items:
+        try:
+            toks.append("fromtk " + T.tkin_tokens(t))
+            kept.append((case, t))
+        except (AssertionError, ValueError):
+            rep.count("fromtk_not_encodable")      # parameter off the 1/8 lattice
+    for (case, t), ans in zip(kept, drv.ask_many(toks)):
+        try:
+            real = "ok " + T.import_tokens(Circuit.from_tk(t))
+        except Exception as exc:
+            real = "err " + err_class(exc)
+        ans, _, flags = ans.partition(" wf=")
+        flags = dict(kv.split("=") for kv in ("wf=" + flags).split()) if flags else {}
+        if real != ans:
+            rep.disagree("fromtk", case, real[:700], ans[:700])
+        # the hypotheses of the Lean theorems on this input
+        if origin != "malformed" and flags.get("wf") != "1":
+            rep.disagree("fromtk", case, "generated tket circuit is well-formed", "TkIn.wellFormed = false")
+        fits = len(t.post_processing.dom) == len(t.bits) - len(t.post_selection)
+        if flags.get("wf") == "1" and (flags.get("imp") != "1" or (fits and not real.startswith("ok"))):
+            rep.disagree("fromtk", case, "from_tk_importable / from_tk_total on a well-formed input",
+                         "imp=%s real=%s" % (flags.get("imp"), real[:60]))
+        late = T.gate_after_postselected_measure(T.raw_commands(t), {int(k) for k in t.post_selection})
+        if flags.get("final") != ("0" if late else "1"):
+            rep.disagree("fromtk", case, "psFinal = %s" % (not late), "final=%s" % flags.get("final"))
+        rep.count("fromtk_checked:" + origin)
+        rep.count("fromtk_wellformed:" + flags.get("wf", "?"))
+        rep.count("fromtk:" + (real.split()[1] if real.startswith("err") else "ok"))
+
+
+def roundtrip_compare(rep, drv, rounds):
+    """`FromToRoundTrip` (lean/Props/C13.lean, stated, not proved) evaluated on the model."""
+    for (case, _), ans in zip(rounds, drv.ask_many(["tkround " + r for _, r in rounds])):
+        if not ans.startswith("ok a= "):
+            rep.disagree("roundtrip", case, "round trip defined inside the fragment", ans[:200])
+            continue
+        a, b = ans[len("ok a= "):].split(" | b= ")
+        why = T.roundtrip_failure(T.parse_spec(T.parse_fields("ok " + a)[1]), T.parse_spec(T.parse_fields("ok " + b)[1]))
+        if why:
+            rep.disagree("roundtrip", case, "canon(from_tk(to_tk(c))) is canon(c) up to naming", why)
+        rep.count("roundtrip_statement_checked")
+
+
+def malformed_stream(rep, rng, drv, n, Circuit):
+    """Inputs from_tk must refuse (or on which its behaviour is at least the model's): real == model."""
+    items = []
+    for _ in range(n):
+        t, desc = T.gen_tk_malformed(rng)
+        items.append((dict(tket=desc), t))
+        rep.count("malformed:" + desc.split(":")[0])
+    fromtk_compare(rep, drv, items, Circuit, "malformed")
+
+
+def import_ps_stream(rep, rng, drv, n, n_eval, Circuit, max_units):
+    """discopy tk.Circuits with post-selected bits, built directly: model correspondence for all of
+    them and, for the first `n_eval` with at most `max_units` units, the property (the imported
+    circuit evaluates to the exactly simulated, post-selected distribution)."""
+    items = []
+    try:
+        _import_ps_loop(rep, rng, n, n_eval, Circuit, max_units, items)
+    finally:
+        fromtk_compare(rep, drv, items, Circuit, "postselected")
+
+
+def ps_witnesses():
+    """Fixed post-selected tket circuits replayed on every run (notes/finding_F33.md)."""
+    from discopy.quantum import tk as dtk
+    return [
+        # F33  a gate after a post-selected measurement
+        (dtk.Circuit(1, 1, post_selection={0: 0}).H(0).Measure(0, 0).H(0),
+         "tk.Circuit(1, 1, post_selection={0: 0}).H(0).Measure(0, 0).H(0)", True),
+        # F33  a SWAP moves another state onto the measured wire
+        (dtk.Circuit(2, 2, post_selection={0: 1}).X(0).Measure(0, 0).SWAP(0, 1).Measure(1, 1),
+         "tk.Circuit(2, 2, post_selection={0: 1}).X(0).Measure(0, 0).SWAP(0, 1).Measure(1, 1)", True),
+        # post-selected bit below and above a measured bit (F12/F13 shapes, fixed), no late gate
+        (dtk.Circuit(3, 3, post_selection={0: 1, 2: 0}).X(0).H(1).CX(1, 2).Measure(0, 0).Measure(1, 1).Measure(2, 2),
+         "tk.Circuit(3, 3, post_selection={0: 1, 2: 0}).X(0).H(1).CX(1, 2).Measure(0, 0).Measure(1, 1).Measure(2, 2)", False),
+    ]
+
+
+def _import_ps_loop(rep, rng, n, n_eval, Circuit, max_units, items):
+    wit = ps_witnesses()
+    n_eval += len(wit)
+    for k in range(n + len(wit)):
+        t, desc, late = wit[k] if k < len(wit) else T.gen_tk_ps(rng, max_qubits=3, late_gate=0.08)
+        case = dict(tket=desc)
+        items.append((case, t))
+        rep.count("import:postselected" + ("_late_gate" if late else ""))
+        if n_eval <= 0 or t.n_qubits + len(t.bits) - len(t.post_selection) > max_units:
+            rep.case("tkps " + desc, len(t.post_selection) > 0)
+            continue
+        n_eval -= 1
+        rep.count("import:postselected_evaluated")
+        try:
+            d = Circuit.from_tk(t)
+        except Exception as exc:
+            rep.fail(from_tk_sig(t, exc), case, "from_tk raises %s" % repr(exc)[:160])
+            rep.case("tkps " + desc, False)
+            continue
+        rep.case("tkps " + desc, len(t.post_selection) > 0)
+        want = T.exported_distribution(t)
+        try:
+            got = d.eval(mixed=True).array
+        except Exception as exc:
+            rep.fail("from_tk:eval_raises:" + err_class(exc), case, repr(exc)[:200])
+            continue
+        if not close(got, want):
+            sig = from_tk_sig(t)
+            rep.fail("from_tk:distribution" if sig == "from_tk:value" else sig, case,
+                     "imported circuit gives %s, the tket circuit %s" % (show(got), show(want)))
+
+
+def import_stream(rep, rng, drv, n, Circuit, max_units):
+    items = []
+    try:
+        _import_loop(rep, rng, n, Circuit, max_units, items)
+    finally:
+        fromtk_compare(rep, drv, items, Circuit, "pytket")
+
+
+def _import_loop(rep, rng, n, Circuit, max_units, items):
     for k in range(n):
         measure = k % 3 == 2
         circ, desc = T.gen_tk(rng, measure=measure, swap=(rng.random() < 0.15),
                               max_qubits=(max_units + 1) // 2 if measure else 4)
         case = dict(tket=desc)
+        items.append((case, T_upgrade(circ)))
         rep.count("import:" + ("measured" if measure else "unitary"))
         try:
             d = Circuit.from_tk(circ)
